@@ -265,6 +265,9 @@ def register(reg):
         loops=[Loop('for (fn, typ) in FUNCTION_ID_MAP', unroll=True)],
         canaries=['result == ""', 'result != "LIS"', 'result != "RP66V1"', 'result != "BIT"', 'result != "ASCII"'],
         native_gen=GEN_FILE, timeout=60))
+    # the dispatcher's VCs (27 string results, byte-prefix disjunctions) suit z3's automatic configuration; plain e-matching
+    # with auto_config off runs to its time limit on some of them before the next stage proves them in seconds
+    reg.contracts[(BF, 'binary_file_type')].solver_order = ['z3-mbqi-short', 'z3-ematch', 'z3-default', 'z3-seed1']
 
 
 def _regex_literal(section, name):
